@@ -54,6 +54,7 @@ enum DKind {
     D_SPURIOUS_TRYLOCK,
     D_THROW,
     D_PLAIN,  // preemption at a plain (non-atomic) access to heap memory
+    D_ALLOC_FAIL,  // a user-supplied allocator's allocate() throws std::bad_alloc
     D_NKINDS
 };
 
